@@ -423,6 +423,13 @@ def safetensors_split(run):
     def prog(E2):
         a, b = new_input(E2, "T1", "int8", [3]), new_input(E2, "T2", "float16", [])
         sd = {"l.weight._data": a, "l.weight._scale": b, "l.weight.qtype": "qint8", "l.weight.axis": "0", "l.weight_qtype": "qint8", "l.activation_qtype": "none"}
+        # float8 payloads of both flavours, a uint8 payload (packed low-bit weights) and a float32 bias
+        for nm_, dt_, qn_ in (("m", "float8_e4m3fn", "qfloat8_e4m3fn"), ("n", "float8_e5m2", "qfloat8_e5m2"), ("p", "uint8", "qint4")):
+            sd[f"{nm_}.weight._data"] = new_input(E2, f"D_{nm_}", dt_, [4, 2])
+            sd[f"{nm_}.weight._scale"] = new_input(E2, f"S_{nm_}", "float32", [4, 1])
+            sd[f"{nm_}.weight.qtype"] = qn_
+            sd[f"{nm_}.weight_qtype"] = qn_
+        sd["m.bias"] = new_input(E2, "Bias", "float32", [4])
         E2.call(E2.get(f"{SER}::safe_save"), [sd, "f.safetensors"], {})
         back = E2.call(E2.get(f"{SER}::safe_load"), ["f.safetensors"], {})
         return sd, back
@@ -439,8 +446,12 @@ def safetensors_split(run):
             run.add(f"C10/safetensors-round-trip-runs/path{pi}", r.hyps, z3.BoolVal(False), "property", inst, {"outcome": repr(r.value)[:300]})
             continue
         sd, back = r.value
-        ok = set(sd) == set(back) and all(sd[k] is back[k] or sd[k] == back[k] for k in sd if not isinstance(sd[k], STensor)) and all(sd[k] is back[k] for k in sd if isinstance(sd[k], STensor))
-        run.add(f"C10/safe_save-safe_load-are-inverse/path{pi}", r.hyps, z3.BoolVal(bool(ok)), "property", inst)
+        ok = set(sd) == set(back) and all(sd[k] is back[k] or sd[k] == back[k] for k in sd if not isinstance(sd[k], STensor))
+        run.add(f"C10/safe_save-safe_load-are-inverse/path{pi}", r.hyps, z3.BoolVal(bool(ok)), "property", inst, replay=lambda m, s: replay_safetensors(m, s))
+        for k in sorted(sd):
+            if isinstance(sd[k], STensor) and k in back:
+                run.add(f"C10/safe_save-safe_load-restore-tensor:{k}/path{pi}", r.hyps, same_tensor(sd[k], back[k]) if isinstance(back[k], STensor) else z3.BoolVal(False), "property", inst,
+                        {"dtype_saved": sd[k].dtype, "dtype_loaded": getattr(back[k], "dtype", None)}, replay=lambda m, s: replay_safetensors(m, s))
 
 
 def build(run):
@@ -565,6 +576,40 @@ def replay_module(model, seed, inst, clauses=("types", "load", "outputs", "resav
     return None
 
 
+def replay_safetensors(model, seed):
+    """safe_save / safe_load round trip of frozen models of every 8-bit weight qtype: bit-identical entries."""
+    import os
+    import tempfile
+    import torch
+    from optimum.quanto import freeze, qtypes, quantize
+    from optimum.quanto.serialization import safe_load, safe_save
+
+    torch.manual_seed(seed)
+    for qn in ("qint8", "qfloat8_e4m3fn", "qfloat8_e5m2", "qint4"):
+        m = torch.nn.Sequential(torch.nn.Linear(16, 8))
+        quantize(m, weights=qtypes[qn])
+        freeze(m)
+        sd = m.state_dict()
+        with tempfile.TemporaryDirectory() as d:
+            f = os.path.join(d, "m.safetensors")
+            try:
+                safe_save(sd, f)
+                back = safe_load(f)
+            except Exception as e:
+                return {"what": f"safetensors round trip raises {type(e).__name__}: {str(e)[:150]}", "qtype": qn}
+        if sorted(back) != sorted(sd):
+            return {"what": "keys differ after the safetensors round trip", "qtype": qn}
+        for k, v in sd.items():
+            w = back[k]
+            if type(v) is torch.Tensor:
+                same = v.dtype == w.dtype and v.shape == w.shape and torch.equal(v.view(torch.uint8) if v.dtype.itemsize == 1 else v, w.view(torch.uint8) if w.dtype.itemsize == 1 else w)
+                if not same:
+                    return {"what": f"entry '{k}' differs after the safetensors round trip", "qtype": qn, "dtype_saved": str(v.dtype), "dtype_loaded": str(w.dtype)}
+            elif v != w:
+                return {"what": f"string entry '{k}' differs", "qtype": qn}
+    return None
+
+
 def replay_requantize(model, seed, inst):
     import torch
     from optimum.quanto import Calibration, freeze, qtypes, quantize, requantize
@@ -595,6 +640,6 @@ def replay_file(path):
     import json
     rec = json.load(open(path))
     inst = rec["instance"]
-    r = replay_tensor({}, 0, inst) if inst.get("level") == "tensor" else replay_module({}, 0, inst) if inst.get("level") == "module" else replay_requantize({}, 0, inst) if inst.get("level") == "model" else None
+    r = replay_tensor({}, 0, inst) if inst.get("level") == "tensor" else replay_module({}, 0, inst) if inst.get("level") == "module" else replay_requantize({}, 0, inst) if inst.get("level") == "model" else replay_safetensors({}, 0) if inst.get("level") == "safetensors" else None
     print(json.dumps(r, indent=1, default=str))
     return 1 if r else 0
